@@ -29,8 +29,13 @@
 (*   "no_exit_recheck" (a sender woken by a window adjust allocates window without  *)
 (*   re-checking closed / eof_sent) | "credit_silent" (discarded extended data is   *)
 (*   added to in_window_sofar but no WINDOW_ADJUST is sent for it) | "no_eof_notify" *)
-(*   (_send_eof does not notify the window condition: a parked writer sleeps on)     *)
-EXTENDS Naturals, Sequences, FiniteSets, TLC
+(*   (_send_eof does not notify the window condition: a parked writer sleeps on) |   *)
+(*   "combine_credits" (set_combine_stderr counts the moved stderr bytes in          *)
+(*   in_window_sofar: credited again when read) | "eof_sent_stops_credit"            *)
+(*   (_check_add_window also returns 0 once the side sent its own EOF) |             *)
+(*   "done_always" (HoldBack: _send_done also runs on the exits of _send that never  *)
+(*   counted a message: raise / return 0 / timeout)                                  *)
+EXTENDS Integers, Sequences, FiniteSets, TLC
 
 CONSTANTS UsersA, UsersB,   \* user threads of each side (strings)
           Daemons,          \* subset of {"dA_out","dA_err","dB_out","dB_err"}: readers that read forever
@@ -84,6 +89,8 @@ VARIABLES
   outwin, eofSent, eofRecv, closed, pclosed, linked, alive, sofar, buf, tmo,
   \* ---- hold-back repair: data messages in flight and control messages queued behind them (per side)
   inflight, ctlq,
+  \* ---- combine_stderr flag per side (set_combine_stderr(True))
+  comb,
   \* ---- user threads
   pc, op, left, pend, held, calls, ctx, last, spins,
   \* ---- transport thread per side, wires
@@ -97,7 +104,7 @@ tr   == <<tpc, tpend>>
 eobs == <<sent, granted, adjSent, nEof, nClose, afterCtl, bigMsg, lateEmit>>
 robs == <<consumed, leaked, closeSeen>>
 par  == <<win, thresh, maxpkt, peermax>>
-hb   == <<inflight, ctlq>>
+hb   == <<inflight, ctlq, comb>>
 vars == <<par, chan, hb, thr, tr, wire, eobs, robs>>
 
 (* both CLOSEs exchanged, seen from X: its own CLOSE is on the wire and the peer's was processed *)
@@ -134,7 +141,7 @@ InitRest ==
   /\ eofSent = [X \in Sides |-> FALSE] /\ eofRecv = [X \in Sides |-> FALSE]
   /\ closed = [X \in Sides |-> FALSE] /\ pclosed = [X \in Sides |-> FALSE] /\ linked = [X \in Sides |-> TRUE]
   /\ alive = [X \in Sides |-> TRUE] /\ sofar = [X \in Sides |-> 0]
-  /\ inflight = [X \in Sides |-> 0] /\ ctlq = [X \in Sides |-> <<>>]
+  /\ inflight = [X \in Sides |-> 0] /\ ctlq = [X \in Sides |-> <<>>] /\ comb = [X \in Sides |-> FALSE]
   /\ buf = [X \in Sides |-> [out |-> 0, err |-> 0]]
   /\ pc = [t \in Threads |-> "idle"] /\ op = [t \in Threads |-> "none"] /\ left = [t \in Threads |-> 0]
   /\ pend = [t \in Threads |-> <<>>] /\ held = [t \in Threads |-> 0] /\ calls = [t \in Threads |-> 0]
@@ -148,7 +155,7 @@ InitRest ==
 Init == InitPar /\ InitRest
 
 (* ------------------------------------------------------------------ user threads *)
-EntryPc(o) == IF o \in SendOps THEN "send_lock" ELSE IF o \in RecvOps THEN "recv_read"
+EntryPc(o) == IF o = "combine" THEN "comb_lock" ELSE IF o \in SendOps THEN "send_lock" ELSE IF o \in RecvOps THEN "recv_read"
               ELSE IF o = "close" THEN "close_lock" ELSE IF o = "shutdown_rw" THEN "shut_read" ELSE "shut_lock"
 
 Start(t, o, c) ==
@@ -170,6 +177,13 @@ Finish(t, o, lf) ==
 Chunk(t, X) == IF Mut = "ignore_maxpkt" THEN Min(left[t], outwin[X]) ELSE Min(Min(left[t], outwin[X]), maxpkt[X])
 DataMsg(t, k) == IF op[t] \in ErrOps THEN Msg("EXT", k, ctx[t].code) ELSE Msg("DATA", k, 0)
 
+\* exits of _send on which no message was built: nothing to undo - unless Mut = "done_always" runs _send_done there too
+ExitHB(X) == IF Mut = "done_always" /\ HoldBack /\ ~FixRace
+               THEN /\ inflight' = [inflight EXCEPT ![X] = @ - 1] /\ comb' = comb
+                    /\ IF inflight[X] = 1 /\ ctlq[X] # <<>>
+                         THEN Emit(X, ctlq[X], FALSE) /\ ctlq' = [ctlq EXCEPT ![X] = <<>>]
+                         ELSE NoEmit /\ ctlq' = ctlq
+               ELSE UNCHANGED hb /\ NoEmit
 SendReturns0(t) ==      \* send() returns 0: closed or eof_sent seen inside _wait_for_send_window
   /\ IF op[t] \in AllOps
        THEN IF FixSendall
@@ -177,7 +191,7 @@ SendReturns0(t) ==      \* send() returns 0: closed or eof_sent seen inside _wai
               ELSE /\ pc' = [pc EXCEPT ![t] = "send_lock"] /\ last' = last      \* while s: sent = self.send(s)
                    /\ spins' = [spins EXCEPT ![t] = Min(@ + 1, SpinCap)]
        ELSE Finish(t, "ret0", left[t]) /\ spins' = spins
-  /\ UNCHANGED <<op, left, pend, held, calls, ctx, chan, hb, tr, robs>> /\ NoEmit
+  /\ UNCHANGED <<op, left, pend, held, calls, ctx, chan, tr, robs>> /\ ExitHB(Side(t))
 
 SendReserve(t) ==
   LET X == Side(t)  k == Chunk(t, X) IN
@@ -186,12 +200,13 @@ SendReserve(t) ==
   /\ IF FixRace
        THEN Emit(X, <<DataMsg(t, k)>>, ctx[t].rel) /\ pend' = pend /\ pc' = [pc EXCEPT ![t] = "send_done"]
        ELSE NoEmit /\ pend' = [pend EXCEPT ![t] = <<DataMsg(t, k)>>] /\ pc' = [pc EXCEPT ![t] = "send_emit"]
-  /\ inflight' = [inflight EXCEPT ![X] = IF HoldBack /\ ~FixRace THEN @ + 1 ELSE @] /\ ctlq' = ctlq
+  /\ inflight' = [inflight EXCEPT ![X] = IF HoldBack /\ ~FixRace THEN @ + 1 ELSE @] /\ ctlq' = ctlq /\ comb' = comb
+  /\ spins' = [spins EXCEPT ![t] = IF k = 0 THEN Min(@ + 1, SpinCap) ELSE @]      \* a chunk of 0 bytes: iteration without progress
   /\ UNCHANGED <<eofSent, eofRecv, closed, pclosed, linked, alive, sofar, buf, tmo>>
-  /\ UNCHANGED <<op, held, calls, ctx, last, spins, tr, robs>>
+  /\ UNCHANGED <<op, held, calls, ctx, last, tr, robs>>
 
 SendRaise(t) == /\ Finish(t, "raised", left[t])
-                /\ UNCHANGED <<op, left, pend, held, calls, ctx, spins, chan, hb, tr, robs>> /\ NoEmit
+                /\ UNCHANGED <<op, left, pend, held, calls, ctx, spins, chan, tr, robs>> /\ ExitHB(Side(t))
 
 SendEntry(t) ==
   LET X == Side(t) IN
@@ -232,7 +247,7 @@ SendEmit(t) ==          \* after the lock was released: transport._send_user_mes
 SendFin(t) ==           \* HoldBack: _send_done, locked: one hand-over less; the last one takes the queued EOF/CLOSE along
   LET X == Side(t) IN
   /\ pc[t] = "send_fin"
-  /\ inflight' = [inflight EXCEPT ![X] = @ - 1]
+  /\ inflight' = [inflight EXCEPT ![X] = @ - 1] /\ comb' = comb
   /\ IF inflight[X] > 1 \/ ctlq[X] = <<>> \/ Mut = "no_flush"
        THEN ctlq' = ctlq /\ pend' = pend /\ pc' = [pc EXCEPT ![t] = "send_done"]
        ELSE ctlq' = [ctlq EXCEPT ![X] = <<>>] /\ pend' = [pend EXCEPT ![t] = ctlq[X]] /\ pc' = [pc EXCEPT ![t] = "flush_emit"]
@@ -283,7 +298,7 @@ RecvTimer(t) ==
 
 OverThresh(X, s) == IF Mut = "thresh_lt" THEN s >= thresh[X] ELSE s > thresh[X]
 \* _check_add_window(n) for side X: <<new sofar, ack>>
-AddWindow(X, n) == IF closed[X] \/ eofRecv[X] THEN <<sofar[X], 0>>
+AddWindow(X, n) == IF closed[X] \/ eofRecv[X] \/ (Mut = "eof_sent_stops_credit" /\ eofSent[X]) THEN <<sofar[X], 0>>
                    ELSE IF OverThresh(X, sofar[X] + n)
                           THEN <<0, sofar[X] + n + (IF Mut = "over_ack" THEN 1 ELSE 0)>>
                           ELSE <<sofar[X] + n, 0>>
@@ -308,6 +323,17 @@ RecvEmit(t) ==
   /\ UNCHANGED <<op, left, held, calls, ctx, spins, chan, tr, robs>>
   /\ UNCHANGED hb
 
+(* set_combine_stderr(True): one locked section moves what is buffered on stderr behind what is buffered on stdout *)
+CombineLocked(t) ==
+  LET X == Side(t) IN
+  /\ pc[t] = "comb_lock"
+  /\ comb' = [comb EXCEPT ![X] = TRUE] /\ UNCHANGED <<inflight, ctlq>>
+  /\ buf' = IF comb[X] THEN buf ELSE [buf EXCEPT ![X] = [out |-> buf[X].out + buf[X].err, err |-> 0]]
+  /\ sofar' = [sofar EXCEPT ![X] = IF Mut = "combine_credits" /\ ~comb[X] THEN @ + buf[X].err ELSE @]
+  /\ Finish(t, "returned", 0)
+  /\ UNCHANGED <<outwin, eofSent, eofRecv, closed, pclosed, linked, alive, tmo>>
+  /\ UNCHANGED <<op, left, pend, held, calls, ctx, spins, tr, robs>> /\ NoEmit
+
 (* close(), shutdown(1|2): locked section builds EOF / CLOSE, emitted after the lock is released *)
 Held(X) == HoldBack /\ ~FixRace /\ inflight[X] > 0
 CtlMsgs(X, withClose) ==
@@ -321,7 +347,7 @@ CloseLocked(t) ==
        THEN Finish(t, "returned", 0) /\ UNCHANGED <<pend, chan, hb>> /\ NoEmit
        ELSE /\ eofSent' = [eofSent EXCEPT ![X] = TRUE]
             /\ closed' = [closed EXCEPT ![X] = TRUE] /\ pclosed' = [pclosed EXCEPT ![X] = TRUE]
-            /\ UNCHANGED <<outwin, eofRecv, linked, alive, sofar, buf, tmo, inflight>>
+            /\ UNCHANGED <<outwin, eofRecv, linked, alive, sofar, buf, tmo, inflight, comb>>
             /\ IF Held(X)                     \* _send_eof / _close_internal queue behind the data still on its way
                  THEN ctlq' = [ctlq EXCEPT ![X] = @ \o ms] /\ NoEmit /\ Finish(t, "returned", 0) /\ pend' = pend
                ELSE /\ ctlq' = ctlq
@@ -342,7 +368,7 @@ ShutLocked(t) ==        \* _send_eof under the lock
   LET X == Side(t)  ms == CtlMsgs(X, FALSE) IN
   /\ pc[t] = "shut_lock"
   /\ eofSent' = [eofSent EXCEPT ![X] = TRUE]
-  /\ UNCHANGED <<outwin, eofRecv, closed, pclosed, linked, alive, sofar, buf, tmo, inflight>>
+  /\ UNCHANGED <<outwin, eofRecv, closed, pclosed, linked, alive, sofar, buf, tmo, inflight, comb>>
   /\ ctlq' = [ctlq EXCEPT ![X] = IF Held(X) THEN @ \o ms ELSE @]
   /\ IF ms = <<>> \/ Held(X) THEN Finish(t, "returned", 0) /\ pend' = pend /\ NoEmit
      ELSE IF FixRace THEN Emit(X, ms, ctx[t].rel) /\ Finish(t, "returned", 0) /\ pend' = pend
@@ -370,7 +396,7 @@ Deliver(X) ==
             /\ UNCHANGED <<outwin, eofSent, eofRecv, closed, pclosed, linked, alive, sofar, tmo, hb, thr, tr, eobs, robs>>
           [] m.t = "EXT" /\ m.code = 1 ->
             /\ wire' = [wire EXCEPT ![Y] = Tail(@)]
-            /\ buf' = [buf EXCEPT ![X].err = @ + m.n]
+            /\ buf' = IF comb[X] THEN [buf EXCEPT ![X].out = @ + m.n] ELSE [buf EXCEPT ![X].err = @ + m.n]
             /\ UNCHANGED <<outwin, eofSent, eofRecv, closed, pclosed, linked, alive, sofar, tmo, hb, thr, tr, eobs, robs>>
           [] m.t = "EXT" /\ m.code # 1 ->            \* _feed_extended: "unknown extended_data type; discarding"
             IF FixCredit /\ Mut = "credit_silent"      \* counted in in_window_sofar, but nobody sends the adjustment
@@ -407,7 +433,7 @@ Deliver(X) ==
             /\ eofSent' = [eofSent EXCEPT ![X] = TRUE]
             /\ linked' = [linked EXCEPT ![X] = (Mut = "no_unlink")]
             /\ closeSeen' = [closeSeen EXCEPT ![X] = TRUE]
-            /\ UNCHANGED <<outwin, eofRecv, alive, sofar, buf, tmo, thr, consumed, leaked, inflight>>
+            /\ UNCHANGED <<outwin, eofRecv, alive, sofar, buf, tmo, thr, consumed, leaked, inflight, comb>>
             /\ ctlq' = [ctlq EXCEPT ![X] = IF Held(X) THEN @ \o ms ELSE @]
             /\ IF FixRace \/ ms = <<>> \/ Held(X)
                  THEN /\ IF alive[X] /\ ~Held(X)
@@ -439,7 +465,7 @@ Lost(X) ==              \* Transport.run ends: active = False; every channel get
 (* ------------------------------------------------------------------ next-state relation *)
 Step(t) == SendEntry(t) \/ SendWake(t) \/ SendEmit(t) \/ SendFin(t) \/ FlushEmit(t) \/ SendDone(t)
            \/ (\E n \in ReadSizes : RecvRead(t, n)) \/ RecvEmpty(t) \/ RecvAck(t) \/ RecvEmit(t)
-           \/ CloseLocked(t) \/ ShutRead(t) \/ ShutLocked(t) \/ CtlEmit(t)
+           \/ CombineLocked(t) \/ CloseLocked(t) \/ ShutRead(t) \/ ShutLocked(t) \/ CtlEmit(t)
 Timer(t) == SendTimer(t) \/ RecvTimer(t)
 StartAny(t) == \E o \in OpsOf(t) : \E c \in (IF o \in ErrOps THEN Codes ELSE {1}) : Start(t, o, c)
 
@@ -495,6 +521,9 @@ CloseAnsweredExact == \A X \in Sides : (closeSeen[X] /\ tpc[X] = "idle" /\ alive
 \* liveness forms (FairSpec): a processed peer CLOSE is eventually answered on the wire; the queue eventually drains
 AnsweredEventually == \A X \in Sides : [](closeSeen[X] /\ alive[X] => <>(nClose[X] >= 1 \/ ~alive[X]))
 DrainsEventually   == \A X \in Sides : [](ctlq[X] # <<>> => <>(ctlq[X] = <<>>))
+\* HoldBack: the counter is exactly the number of data messages built and not yet through _send_done
+InflightBalanced == \A X \in Sides : inflight[X] = IF HoldBack /\ ~FixRace
+                        THEN Cardinality({t \in ThreadsOf(X) : pc[t] \in {"send_emit", "send_fin"}}) ELSE 0
 \* nothing stays queued once no data hand-over is in flight
 QueueDrains    == \A X \in Sides : inflight[X] = 0 => ctlq[X] = <<>>
 \* (not in the statement of C22; protocol hygiene) EOF never follows the side's own CLOSE
